@@ -73,8 +73,11 @@ func count(s *Store, ctx context.Context, builders ...func(query *bun.SelectQuer
 		Count(ctx)
 }
 
-func filterAccountAddress(address, key string) string {
+// filterAccountAddress renders an address filter. The client's text travels as
+// bound arguments only: it is never part of the SQL text.
+func filterAccountAddress(address, key string) (string, []any) {
 	parts := make([]string, 0)
+	args := make([]any, 0)
 	src := strings.Split(address, ":")
 
 	needSegmentCheck := false
@@ -92,16 +95,23 @@ func filterAccountAddress(address, key string) string {
 			if len(segment) == 0 {
 				continue
 			}
-			parts = append(parts, fmt.Sprintf("%s_array @@ ('$[%d] == \"%s\"')::jsonpath", key, i, segment))
+			// the segment is a JSON string literal inside the jsonpath expression
+			quoted, err := json.Marshal(segment)
+			if err != nil {
+				panic(err)
+			}
+			parts = append(parts, fmt.Sprintf("%s_array @@ (?)::jsonpath", key))
+			args = append(args, fmt.Sprintf("$[%d] == %s", i, string(quoted)))
 		}
 	} else {
-		parts = append(parts, fmt.Sprintf("%s = '%s'", key, address))
+		parts = append(parts, fmt.Sprintf("%s = ?", key))
+		args = append(args, address)
 	}
 
-	return strings.Join(parts, " and ")
+	return strings.Join(parts, " and "), args
 }
 
-func filterAccountAddressOnTransactions(address string, source, destination bool) string {
+func filterAccountAddressOnTransactions(address string, source, destination bool) (string, []any) {
 	src := strings.Split(address, ":")
 
 	needSegmentCheck := false
@@ -117,6 +127,7 @@ func filterAccountAddressOnTransactions(address string, source, destination bool
 			fmt.Sprint(len(src)): nil,
 		}
 		parts := make([]string, 0)
+		args := make([]any, 0)
 
 		for i, segment := range src {
 			if len(segment) == 0 {
@@ -131,12 +142,14 @@ func filterAccountAddressOnTransactions(address string, source, destination bool
 		}
 
 		if source {
-			parts = append(parts, fmt.Sprintf("sources_arrays @> '%s'", string(data)))
+			parts = append(parts, "sources_arrays @> ?")
+			args = append(args, string(data))
 		}
 		if destination {
-			parts = append(parts, fmt.Sprintf("destinations_arrays @> '%s'", string(data)))
+			parts = append(parts, "destinations_arrays @> ?")
+			args = append(args, string(data))
 		}
-		return strings.Join(parts, " or ")
+		return strings.Join(parts, " or "), args
 	} else {
 		data, err := json.Marshal([]string{address})
 		if err != nil {
@@ -144,13 +157,16 @@ func filterAccountAddressOnTransactions(address string, source, destination bool
 		}
 
 		parts := make([]string, 0)
+		args := make([]any, 0)
 		if source {
-			parts = append(parts, fmt.Sprintf("sources @> '%s'", string(data)))
+			parts = append(parts, "sources @> ?")
+			args = append(args, string(data))
 		}
 		if destination {
-			parts = append(parts, fmt.Sprintf("destinations @> '%s'", string(data)))
+			parts = append(parts, "destinations @> ?")
+			args = append(args, string(data))
 		}
-		return strings.Join(parts, " or ")
+		return strings.Join(parts, " or "), args
 	}
 }
 
